@@ -198,6 +198,15 @@ pub fn draw_plan(rng: &mut Rng, index: u64, tier: Tier) -> ExecPlan {
         };
         tasks.push((0..h).map(|_| draw_item(rng)).collect::<Vec<Item>>());
     }
+    // flat-file items go, a third of the time, through rsass' own FsLoader - one instance shared by all
+    // such compilations of the execution (the reference likewise, alone)
+    for items in tasks.iter_mut() {
+        for it in items.iter_mut() {
+            if it.cwd.is_empty() && !it.files.is_empty() && it.files.keys().all(|k| !k.starts_with('/') && !k.contains("..")) && rng.chance(1, 3) {
+                it.via_cwd = true;
+            }
+        }
+    }
     // siblings: another input over the same files, earlier in the same task or in another task
     for t in 0..tasks.len() {
         for k in 0..tasks[t].len() {
